@@ -33,7 +33,18 @@ namespace vsbx {
 
 struct AbiA { using S = int16_t; using I = int32_t; using L = int32_t; using LL = int64_t; using P = uint32_t; static constexpr const char* name = "A"; };
 struct AbiB { using S = int16_t; using I = int32_t; using L = int64_t; using LL = int64_t; using P = uint64_t; static constexpr const char* name = "B"; };
+// the host's own ABI with NATIVE pointers as the representation (T_PointerType = void*, like the bundled noop/dylib backends) but with a
+// real region: the representation is an offset carried in a pointer-typed value and is clamped into the region on the way out
+struct AbiN { using S = short; using I = int; using L = long; using LL = long long; using P = void*; static constexpr const char* name = "N"; };
 struct AbiC { using S = int32_t; using I = int64_t; using L = int64_t; using LL = int64_t; using P = uint32_t; static constexpr const char* name = "C"; };
+
+// the same ABI, for a backend that does NOT declare `needs_internal_lookup_symbol` (rlbox then resolves function
+// addresses through impl_lookup_symbol and keeps them in its second cache)
+struct AbiAn : AbiA { static constexpr bool no_internal_lookup = true; };
+template<class A, class = void> struct wants_internal_lookup : std::true_type {};
+template<class A> struct wants_internal_lookup<A, std::enable_if_t<A::no_internal_lookup>> : std::false_type {};
+template<bool B> struct internal_lookup_marker {};
+template<> struct internal_lookup_marker<true> { using needs_internal_lookup_symbol = void; };
 
 struct GuestFn { const char* name; void* callable; };
 struct Library {
@@ -53,7 +64,7 @@ struct Library {
 #  define VSBX_BASE0_ADDR 0x6a0000000000ull
 #endif
 #ifndef VSBX_STRIDE_BYTES
-#  define VSBX_STRIDE_BYTES 0x400000000ull // 16 GiB between slots
+#  define VSBX_STRIDE_BYTES 0x400030000ull // 16 GiB + 192 KiB between slots: NOT a multiple of 2^32, so an offset taken relative to the wrong sandbox is visible even in a 32-bit representation
 #endif
 constexpr uintptr_t VSBX_BASE0 = VSBX_BASE0_ADDR;
 constexpr uintptr_t VSBX_STRIDE = VSBX_STRIDE_BYTES;
@@ -84,7 +95,7 @@ template<class Abi, unsigned K, unsigned NCB>
 struct rlbox_vsbx_thread_data { rlbox_vsbx<Abi, K, NCB>* sandbox; uint32_t last_callback_invoked; };
 
 template<class Abi, unsigned K, unsigned NCB>
-class rlbox_vsbx
+class rlbox_vsbx : public vsbx::internal_lookup_marker<vsbx::wants_internal_lookup<Abi>::value>
 {
 public:
   using Self = rlbox_vsbx<Abi, K, NCB>;
@@ -93,12 +104,14 @@ public:
   using T_IntType = typename Abi::I;
   using T_PointerType = typename Abi::P;
   using T_ShortType = typename Abi::S;
-  using needs_internal_lookup_symbol = void;
 
   static constexpr uintptr_t Size = uintptr_t(1) << K;
   static constexpr uintptr_t OffMask = Size - 1;
   static constexpr uintptr_t Mask = ~OffMask;
-  static constexpr T_PointerType CB_BASE = 0x4000;
+  static constexpr uintptr_t CB_BASE = 0x4000;
+  // representation <-> integer (the representation may be an integer type or a pointer type)
+  static inline uintptr_t U(T_PointerType p) { if constexpr (std::is_pointer_v<T_PointerType>) return reinterpret_cast<uintptr_t>(p); else return static_cast<uintptr_t>(p); }
+  static inline T_PointerType P(uintptr_t u) { if constexpr (std::is_pointer_v<T_PointerType>) return reinterpret_cast<T_PointerType>(u); else return static_cast<T_PointerType>(u); }
   static constexpr uint32_t MAX_CALLBACKS = NCB;
 
   // ----- observable state (public: this is the harness's own backend) -----
@@ -125,8 +138,8 @@ public:
   T_Ret guest_call_fnptr(T_PointerType rep, T_Args... args)
   {
     using T_Func = T_Ret (*)(T_Args...);
-    if (rep >= CB_BASE && rep < CB_BASE + NCB) {
-      uint32_t n = static_cast<uint32_t>(rep - CB_BASE);
+    if (U(rep) >= CB_BASE && U(rep) < CB_BASE + NCB) {
+      uint32_t n = static_cast<uint32_t>(U(rep) - CB_BASE);
       thread_data.last_callback_invoked = n;
       // typed indirect call: the guest's idea of the signature must be the one the entry point was registered with
       auto* sig = thread_data.sandbox->callback_sigs[n];
@@ -135,7 +148,7 @@ public:
       return f(args...);
     }
     // library function by table index
-    auto f = reinterpret_cast<T_Func>(lib->fns.at(static_cast<size_t>(rep) - 1).callable);
+    auto f = reinterpret_cast<T_Func>(lib->fns.at(static_cast<size_t>(U(rep)) - 1).callable);
     return f(args...);
   }
 
@@ -191,13 +204,13 @@ protected:
   inline void* impl_get_unsandboxed_pointer(T_PointerType p) const
   {
     if constexpr (std::is_function_v<std::remove_pointer_t<T>>) {
-      if (p >= CB_BASE && p < CB_BASE + NCB) return const_cast<char*>(&cbdesc[p - CB_BASE]);
-      if (lib != nullptr && p >= 1 && p <= lib->fns.size()) return const_cast<char*>(&lib->desc[p]);
+      if (U(p) >= CB_BASE && U(p) < CB_BASE + NCB) return const_cast<char*>(&cbdesc[U(p) - CB_BASE]);
+      if (lib != nullptr && U(p) >= 1 && U(p) <= lib->fns.size()) return const_cast<char*>(&lib->desc[U(p)]);
       // unknown table index: a non-null, non-callable marker that is not a data address
       return const_cast<char*>(&cbdesc[0]) + 0; // deliberately the first descriptor
     } else {
-      if (vsbx::g_unclamped) return reinterpret_cast<void*>(Base + static_cast<uintptr_t>(p));
-      return reinterpret_cast<void*>(Base + (static_cast<uintptr_t>(p) & OffMask));
+      if (vsbx::g_unclamped) return reinterpret_cast<void*>(Base + U(p));
+      return reinterpret_cast<void*>(Base + (U(p) & OffMask));
     }
   }
 
@@ -206,12 +219,12 @@ protected:
   {
     if constexpr (std::is_function_v<std::remove_pointer_t<T>>) {
       auto c = static_cast<const char*>(p);
-      if (c >= &cbdesc[0] && c < &cbdesc[0] + NCB) return static_cast<T_PointerType>(CB_BASE + (c - &cbdesc[0]));
+      if (c >= &cbdesc[0] && c < &cbdesc[0] + NCB) return P(CB_BASE + static_cast<uintptr_t>(c - &cbdesc[0]));
       if (lib != nullptr && c >= lib->desc.data() + 1 && c < lib->desc.data() + lib->desc.size())
-        return static_cast<T_PointerType>(c - lib->desc.data());
-      return static_cast<T_PointerType>(0x3fff); // not a function of this instance
+        return P(static_cast<uintptr_t>(c - lib->desc.data()));
+      return P(0x3fff); // not a function of this instance
     } else {
-      return static_cast<T_PointerType>(reinterpret_cast<uintptr_t>(p) - Base);
+      return P(reinterpret_cast<uintptr_t>(p) - Base);
     }
   }
 
@@ -224,7 +237,7 @@ protected:
       return sandbox->template impl_get_unsandboxed_pointer<T>(p);
     } else {
       auto base = Mask & reinterpret_cast<uintptr_t>(ex);
-      return reinterpret_cast<void*>(base + (static_cast<uintptr_t>(p) & OffMask));
+      return reinterpret_cast<void*>(base + (U(p) & OffMask));
     }
   }
 
@@ -233,21 +246,21 @@ protected:
   {
     if constexpr (std::is_function_v<std::remove_pointer_t<T>>) {
       auto sandbox = finder(ex);
-      if (sandbox == nullptr) return 0;
+      if (sandbox == nullptr) return P(0);
       return sandbox->template impl_get_sandboxed_pointer<T>(p);
     } else {
       auto base = Mask & reinterpret_cast<uintptr_t>(ex);
-      return static_cast<T_PointerType>(reinterpret_cast<uintptr_t>(p) - base);
+      return P(reinterpret_cast<uintptr_t>(p) - base);
     }
   }
 
   inline T_PointerType impl_malloc_in_sandbox(size_t size)
   {
     n_malloc++;
-    if (vsbx::g_malloc_force) return static_cast<T_PointerType>(vsbx::g_malloc_force_value);
+    if (vsbx::g_malloc_force) return P(static_cast<uintptr_t>(vsbx::g_malloc_force_value));
     size_t r = (size + 7) & ~size_t(7);
     if (r < size || brk + r > Size || brk + r < brk) return 0;
-    auto ret = static_cast<T_PointerType>(brk);
+    auto ret = P(brk);
     brk += r;
     return ret;
   }
@@ -300,7 +313,7 @@ protected:
         callback_unique_keys[i] = key;
         callbacks[i] = callback;
         callback_sigs[i] = &typeid(T_Ret(T_Args...));
-        return static_cast<T_PointerType>(CB_BASE + i);
+        return P(CB_BASE + i);
       }
     }
     detail::dynamic_check(false, "vsbx: no free callback slot");
